@@ -56,8 +56,26 @@ func c13ScriptCheck(c c13Script) (fs []rep.Finding) {
 		fs = append(fs, rep.F("json|marshal-error", err.Error()))
 	} else {
 		var back bscript.Script
-		if err := json.Unmarshal(jb, &back); err != nil || !bytes.Equal(back, raw) {
+		buf := append([]byte(nil), jb...)
+		if err := json.Unmarshal(buf, &back); err != nil || !bytes.Equal(back, raw) {
 			fs = append(fs, rep.F("json|roundtrip", fmt.Sprintf("JSON rendering does not convert back (%v)", err)))
+		} else {
+			// the decoded script must own its bytes: recycle the caller's buffer, decode something else
+			for i := range buf {
+				buf[i] = 'f'
+			}
+			var other bscript.Script
+			_ = json.Unmarshal([]byte(`"00ff00ff"`), &other)
+			if !bytes.Equal(back, raw) {
+				fs = append(fs, rep.F("json|decoded-script-aliases-input-buffer", "script changed when the JSON input buffer was reused"))
+			}
+		}
+		// several documents through one streaming decoder
+		dec := json.NewDecoder(bytes.NewReader(bytes.Join([][]byte{jb, []byte(`"6a"`), jb, []byte(`"51ac"`)}, []byte("\n"))))
+		var d1, d2, d3, d4 bscript.Script
+		if dec.Decode(&d1) != nil || dec.Decode(&d2) != nil || dec.Decode(&d3) != nil || dec.Decode(&d4) != nil ||
+			!bytes.Equal(d1, raw) || !bytes.Equal(d2, []byte{0x6a}) || !bytes.Equal(d3, raw) || !bytes.Equal(d4, []byte{0x51, 0xac}) {
+			fs = append(fs, rep.F("json|stream-decode", "scripts decoded from one JSON stream differ from what was encoded"))
 		}
 		type wrap struct {
 			S *bscript.Script `json:"s"`
